@@ -96,7 +96,7 @@ def showBlocked (p : Proc) : String :=
   ",".intercalate (((trackedConds.filter (·.2 ≠ 0)).filter (fun c => p.sys.blocked c.2)).map (·.1))
 
 def showProcEntry (kv : Nat × Proc) : String :=
-  s!"{kv.1}({kv.2.ppid})" ++ "{" ++ s!"{showSys kv.2} l={kv.2.nofile} b={showBlocked kv.2}" ++ "}"
+  s!"{kv.1}({kv.2.ppid})" ++ "{" ++ s!"{showSys kv.2} l={showLimit kv.2.nofile} b={showBlocked kv.2}" ++ "}"
 
 def showTable (s : SysState) : String := " ".intercalate (s.processes.map showProcEntry)
 
